@@ -40,6 +40,8 @@ func checkC14(c *Ctx) {
 	c.Expect("C14-R5", 8)
 	c.Rule("C14-R15", "every shipped name resolves: AddTerminfo files an entry whatever it holds (no test of the entry's capabilities stands before the registry stores)")
 	c.Expect("C14-R15", 1)
+	c.Rule("C14-R16", "NAME-truecolor, COLORTERM and TCELL_TRUECOLOR switch direct colour on for every entry: the block that supplies the standard 24-bit strings depends on the request and on the entry's own RGB strings only (not on its colour count or anything else it holds)")
+	c.Expect("C14-R16", 1)
 	c.Rule("C14-R14", "what a lookup returns does not depend on earlier lookups: nothing hands the result of terminfo.LookupTerminfo back to AddTerminfo (it may be a private amended copy carrying the base entry's name; only entries loaded from infocmp are registered by the wrapper)")
 	c.Expect("C14-R14", 1)
 	c.Rule("C14-R13", "NAME-256color for a known base always synthesises the standard strings: the block that sets Colors = 256 depends on the name only, not on the contents of the base entry")
@@ -80,6 +82,7 @@ func checkC14(c *Ctx) {
 		checkSynth256Unconditional(c, p, "C14-R13")
 		checkNoReRegistration(c, p, "C14-R14")
 		checkRegistrationUnconditional(c, p, "C14-R15")
+		checkSynthTruecolorGuard(c, p, "C14-R16")
 		c14Disable(c, p)
 		c14FoundBaseIsUsed(c, p)
 		checkVetoLast(c, p, "C14-R10")
